@@ -20,7 +20,7 @@ def need(cond, what, detail=''):
         raise Fail(what, detail() if callable(detail) else detail)
 
 
-def tagged_mesh(name, rng, oriented=False, **kw):
+def tagged_mesh(name, rng, oriented=True, **kw):
     m = rand_mesh1(name, rng, integer=True, **kw)
     sub, bnd = rand_tags(m, rng, oriented=oriented, empty=True)
     return m.with_subdomains(sub).with_boundaries(bnd)
@@ -113,14 +113,19 @@ def op_transform(m, rng):
         scale = 1
         info = {'normal': nrm, 'point': pt}
     else:
-        a = int(rng.integers(-2, 3))
+        # every coordinate function must see the ORIGINAL coordinates: x' = x + a y, y' = y + b x (both at once)
+        a, b = int(rng.integers(-2, 3)), int(rng.integers(-2, 3))
+        if a * b == 1:
+            b = 0
         d0, d1 = (0, 1) if dim == 2 else [int(x) for x in rng.choice(dim, size=2, replace=False)]
         fs = [None] * dim
         fs[d0] = lambda p, a=a, d0=d0, d1=d1: p[d0] + a * p[d1]
+        fs[d1] = lambda p, b=b, d0=d0, d1=d1: p[d1] + b * p[d0]
         M = m.morphed(*fs)
-        want = [[(x + a * P[d1][j]) if d == d0 else x for j, x in enumerate(P[d])] for d in range(dim)]
-        scale = 1
-        info = {'shear': [d0, d1, a]}
+        want = [[(x + a * P[d1][j]) if d == d0 else ((x + b * P[d0][j]) if d == d1 else x) for j, x in enumerate(P[d])]
+                for d in range(dim)]
+        scale = abs(1 - a * b)
+        info = {'shear': [d0, d1, a, b]}
     what = kind
     got = [[F(x) for x in row] for row in M.p.tolist()]
     need(got == want, what + ':coordinates', 'p is not the transformed p')
@@ -150,6 +155,12 @@ def check_tiling(rng, parent, children, what, k):
 
 
 def op_to_meshtri(m, rng):
+    if m.boundaries and rng.random() < 0.4:                  # a tag that lists facets twice
+        from dataclasses import replace
+        nm = sorted(m.boundaries)[0]
+        b = np.asarray(m.boundaries[nm])
+        if len(b):
+            m = replace(m, _boundaries={**m.boundaries, 'twice': np.concatenate([b, b[:2]]).astype(np.int32)})
     style = 'x' if rng.random() < 0.5 else None
     nt = m.t.shape[1]
     x = rng.integers(0, 100, size=nt).astype(float)
@@ -174,8 +185,21 @@ def op_to_meshtri(m, rng):
         need(sorted(np.asarray(M.subdomains[nm]).tolist()) == want, what + ':subdomain', nm)
     need(sorted(M.boundaries or {}) == sorted(m.boundaries or {}), what + ':boundary-names', '')
     for nm, b in (m.boundaries or {}).items():
-        need(facet_points(M, M.boundaries[nm]) == facet_points(m, b) and
-             len(M.boundaries[nm]) == len(set(np.asarray(b).tolist())), what + ':boundary', nm)
+        g = M.boundaries[nm]
+        need(np.asarray(g).dtype.kind in 'iu', what + ':boundary-dtype', nm)
+        # entry by entry (stable increasing order of the old facet numbers; repeated entries stay repeated)
+        order = np.argsort(np.asarray(b), kind='stable')
+        need(len(g) == len(b), what + ':boundary', lambda: f'{nm}: {len(b)} entries -> {len(g)}')
+        for j, k0 in enumerate(order):
+            need(frozenset(cols(M.p, M.facets[:, int(g[j])])) == frozenset(cols(m.p, m.facets[:, int(b[k0])])),
+                 what + ':boundary', lambda: f'{nm}: entry {j} designates another facet')
+        if getattr(b, 'ori', None) is not None:
+            go = getattr(g, 'ori', None)
+            need(go is not None, what + ':orientation-dropped', nm)
+            for j, k0 in enumerate(order):
+                c = int(m.f2t[int(b.ori[k0]), int(b[k0])])
+                need(int(M.f2t[int(go[j]), int(g[j])]) % nt == c, what + ':orientation-side',
+                     lambda: f'{nm}: the tagged side of entry {j} is not a child of quadrilateral {c}')
     return M, {'style': style}
 
 
@@ -274,6 +298,56 @@ def op_matmul(m, rng):
     return None, {'quad': mesh_json(q)}     # the parts carry unused vertices by design: not chained
 
 
+def op_matmul_list(ms, rng):
+    """m0 @ [m1, m2, m3] with touching / overlapping copies: every mesh keeps its cells over ONE merged point table"""
+    ms = [m.translated((float(2 * i * int(rng.integers(0, 2))), float(rng.integers(0, 2)))) for i, m in enumerate(ms)]
+    out = ms[0] @ ms[1:]
+    what = 'matmul-list'
+    need(len(out) == len(ms) and all(type(a) is type(b) for a, b in zip(out, ms)), what + ':classes', '')
+    need(all(np.array_equal(out[0].p, o.p) for o in out), what + ':shared-p', '')
+    distinct = {tuple(c) for c in np.hstack([m.p for m in ms]).T.tolist()}
+    need(out[0].p.shape[1] == len(distinct) and len({tuple(c) for c in out[0].p.T.tolist()}) == len(distinct),
+         what + ':vertex-count', '')
+    for j, (M, src) in enumerate(zip(out, ms)):
+        nv = src.elem.refdom.nnodes
+        need(M.t.shape == src.t.shape and M.t.max() < M.p.shape[1], what + ':index-range', f'mesh {j}')
+        for k in range(src.t.shape[1]):
+            a, b = cols(M.p, M.t[:nv, k]), cols(src.p, src.t[:nv, k])
+            need(set(a) == set(b) if nv == 3 else a == b, what + ':cell-geometry', f'mesh {j}, cell {k}')
+    return None, {}
+
+
+def op_scaled_scalar(m, rng):
+    """scaled with ONE number (Python int, float, NumPy scalar): every dimension is scaled by it"""
+    f = [2, 3.0, np.int64(2), np.float64(0.5), -1][int(rng.integers(0, 5))]
+    M = m.scaled(f)
+    what = 'scaled-scalar'
+    need(np.array_equal(M.p, m.p * float(f)), what + ':coordinates', f'factor {f!r} ({type(f).__name__})')
+    need(np.array_equal(M.t, m.t), what + ':t-changed', '')
+    return M, {'factor': repr(f)}
+
+
+def op_to_meshtri_unused(m, rng):
+    """to_meshtri on a mesh whose point array has unused trailing points"""
+    from dataclasses import replace
+    extra = 60.0 + rng.integers(0, 9, size=(2, int(rng.integers(1, 4))))
+    mu = replace(m, doflocs=np.hstack((m.p, extra)))
+    nt = m.t.shape[1]
+    for style in (None, 'x'):
+        M = mu.to_meshtri(style=style)
+        what = 'to_meshtri-unused' + ('-x' if style else '')
+        nch = 4 if style else 2
+        ma, mb = measures(m), measures(M)
+        for k in range(nt):
+            par = cols(mu.p, mu.t[:, k])
+            allowed = set(par) | {centroid(par)}
+            ch = [k + j * nt for j in range(nch)]
+            for c in ch:
+                need(set(cols(M.p, M.t[:, c])) <= allowed, what + ':child-not-in-parent', f'child {c} of parent {k}')
+            need(total([mb[c] for c in ch]) == ma[k], what + ':measure', f'children of parent {k} do not add up')
+    return None, {}
+
+
 def with_unused(m, rng):
     """the same cells over a vertex array with extra unused points at random positions"""
     nvx = m.p.shape[1]
@@ -321,7 +395,7 @@ def op_remove_duplicates(m, rng):
     p, t = with_duplicates(m, rng)
     cls = type(m)
     md = cls(p, t)
-    sub, bnd = rand_tags(md, rng, oriented=False)
+    sub, bnd = rand_tags(md, rng, oriented=True)
     md = md.with_subdomains(sub).with_boundaries(bnd)
     M = md.remove_duplicate_nodes()
     what = 'remove_duplicate_nodes'
@@ -339,6 +413,13 @@ def op_remove_duplicates(m, rng):
         ok = gi.size == 0 or (gi.min() >= 0 and gi.max() < M.facets.shape[1])
         need(ok and facet_points(M, gi) == facet_points(md, b), what + ':boundary',
              lambda: f'{nm}: carried-over boundary designates other facets')
+        if getattr(b, 'ori', None) is not None:
+            # an oriented boundary keeps its side: the cell on the tagged side is the same cell (cells keep their numbers)
+            go = getattr(M.boundaries[nm], 'ori', None)
+            need(go is not None and len(gi) == len(b), what + ':orientation-dropped', nm)
+            old = {frozenset(cols(md.p, md.facets[:, int(f)])): int(md.f2t[int(o), int(f)]) for f, o in zip(np.asarray(b), b.ori)}
+            new = {frozenset(cols(M.p, M.facets[:, int(f)])): int(M.f2t[int(o), int(f)]) for f, o in zip(gi, go)}
+            need(old == new, what + ':orientation-side', lambda: f'{nm}: the tagged side changed')
     return M, {'input': mesh_json(md)}
 
 
